@@ -17,10 +17,15 @@ type updSpec struct {
 
 // heightSpec plans one canonical height.
 type heightSpec struct {
-	Txs      []string  `json:"txs,omitempty"`
-	Updates  []updSpec `json:"upd,omitempty"` // validator updates returned by EndBlock (sanitised when the chain is built)
-	Round    int32     `json:"round,omitempty"`
-	FlagPref []int     `json:"flags,omitempty"` // per commit slot (mod len): 0 for-block, 1 absent, 2 nil; repaired to +2/3
+	Txs     []string  `json:"txs,omitempty"`
+	Updates []updSpec `json:"upd,omitempty"` // validator updates returned by EndBlock (sanitised when the chain is built)
+	Round   int32     `json:"round,omitempty"`
+	// Reencoded: the (faulty) proposer of this height gossiped the block in a non-canonical protobuf encoding (two
+	// bytes of an unknown field appended). Same block, same hash - but the part set header the validators signed is
+	// the one of those bytes. NOT drawn by the generator: whether such a chain can exist is decided by consensus
+	// (see TestRegressNonCanonicalEncoding).
+	Reencoded bool  `json:"reencoded,omitempty"`
+	FlagPref  []int `json:"flags,omitempty"` // per commit slot (mod len): 0 for-block, 1 absent, 2 nil; repaired to +2/3
 }
 
 // respSpec is what a peer double does with the BlockRequest for one height.
